@@ -2,6 +2,10 @@
 # usage: trymut.sh <file-in-repo> <python-regex> <replacement> <check ids...>
 # applies a one-off textual mutation to /repo, runs the checks, restores the file.
 f="$1"; pat="$2"; rep="$3"; shift 3
+# one mutation of /repo at a time, and no ./check of anybody else while /repo is mutated
+if [ -z "${VERIF_LOCK_HELD:-}" ]; then
+  exec env VERIF_LOCK_HELD=1 flock -x /tmp/verif-repo.lock "$0" "$f" "$pat" "$rep" "$@"
+fi
 cd /repo || exit 2
 python3 - "$f" "$pat" "$rep" <<'P' || { echo "pattern not found"; exit 2; }
 import re,sys
@@ -13,6 +17,6 @@ open(f,'w').write(n)
 P
 git -C /repo diff --stat | tail -1
 for id in "$@"; do
-  ( cd /verif && VERIF_TARGET_DIR=/verif/target ./check $id 2>&1 | grep -E "VIOLATION|KNOWN|INCONCLUSIVE|quick:|thorough:" | cut -c1-260 | head -6 )
+  ( cd /verif && VERIF_TARGET_DIR=${VERIF_TARGET_DIR:-/verif/target} ./check $id 2>&1 | grep -E "VIOLATION|KNOWN|INCONCLUSIVE|quick:|thorough:" | cut -c1-260 | head -6 )
 done
 git -C /repo checkout -- "$f"
